@@ -274,6 +274,30 @@ func drawFmtFile(t *rapid.T, w *World, maxLines int) FmtFile {
 			}
 		}
 		// reference rendering
+		if termOnly && chance(t, 25, "size-boundary") {
+			// the canonical text ends exactly on a typical buffer size; only the end of the file is off
+			for len(canon) > 0 && canon[len(canon)-1] == "" {
+				canon = canon[:len(canon)-1]
+				noise = noise[:len(noise)-1]
+			}
+			size := pick(t, []int{512, 1024, 4096, 8192, 32768, 65536}, "bsize")
+			cur := len(raHeader) + 1
+			for _, l := range canon {
+				cur += len(l) + 1
+			}
+			if pad := size - cur - len("##! ") - 1; pad > 0 {
+				line := "##! " + strings.Repeat("p", pad)
+				canon = append([]string{line}, canon...)
+				noise = append([]string{line}, noise...)
+				var sbb strings.Builder
+				sbb.WriteString(strings.ReplaceAll(raHeader, "\n", nl) + nl)
+				for _, l := range noise {
+					sbb.WriteString(l + nl)
+				}
+				content = sbb.String() + strings.Repeat(nl, drawInt(t, 1, 3, "b-extra"))
+				feat["size-boundary"] = true
+			}
+		}
 		for len(canon) > 0 && canon[len(canon)-1] == "" {
 			canon = canon[:len(canon)-1]
 		}
@@ -310,7 +334,7 @@ func drawFmtFile(t *rapid.T, w *World, maxLines int) FmtFile {
 	default:
 		f.Mode = "boundary"
 		content = pick(t, []string{"", "\n", "\n\n\n", " ", " \t \n", "\r\n", raHeader, raHeader + "\n", raHeader + "\n\n", strings.TrimRight(raHeader, "\n"),
-			raHeader + "foo\n", raHeader + "\nfoo", "foo", "##!", "\t##!<\n"}, "boundary")
+			raHeader + "foo\n", raHeader + "\nfoo", "foo", "##!", "\t##!<\n", raHeader + "\n" + raHeader, raHeader + raHeader + "foo\n", raHeader + "\n" + raHeader + "\nbar\n"}, "boundary")
 		switch content {
 		case "", "\n", "\n\n\n", " ", " \t \n", "\r\n", raHeader + "\n", raHeader + "\n\n", raHeader, strings.TrimRight(raHeader, "\n"):
 			f.Canon = raHeader + "\n"
